@@ -128,7 +128,10 @@ class TU:
             base, cnt = (m.group(1).strip(), int(m.group(2))) if m else (q, None)
             sub = self.record_of(base) if not (is_real_type(base) or is_int_type(base)) else None
             if cnt is None:
-                if is_real_type(base):
+                pq = base.replace("*", "").replace("const", "").replace("restrict", "").strip()
+                if "*" in base and is_real_type(pq):
+                    out.append((prefix + name, "ptrc" if "const" in base else "ptr"))
+                elif is_real_type(base):
                     out.append((prefix + name, "real"))
                 elif sub:
                     out += self.flatten(sub, prefix + name + ".")
@@ -900,7 +903,38 @@ class Fn:
             name = p.get("name", "_")
             rec = self.tu.record_of(q) if "*" in q else None
             vrec = self.rec_of_type(q)
-            if rec and re.match(r"^(const\s+\w+|\w+\s+const)\s*\*", q.replace("struct ", "")):
+            if rec and (self.alen or self.spec) and any(k_ in ("ptr", "ptrc", "int") for _, k_ in self.tu.flatten(rec)):
+                # bounded mode, structure with pointer / integer members: `f@ctx.n=2;ctx.p=2` fixes the integers and gives the
+                # pointed-to arrays a length (named <param>_<member>); real members are binders, in declaration order
+                const_struct = bool(re.match(r"^(const\s+\w+|\w+\s+const)\s*\*", q.replace("struct ", "")))
+                fields = self.tu.flatten(rec)
+                if not const_struct:
+                    self.structs.append((name, rec, fields))
+                self.param_kinds.append(("bstruct", name))
+                for path, kind in fields:
+                    key = "%s.%s" % (name, path)
+                    if kind == "real":
+                        v = self.fresh("%s_%s" % (name, path))
+                        binders.append(v)
+                        env[("mem", name, path)] = v
+                    elif kind == "int":
+                        if key not in self.spec:
+                            raise Unsupported("integer member %s has no value in the specialisation of %s" % (key, self.name))
+                        env[("mem", name, path)] = IntConst(self.spec[key])
+                    elif kind in ("ptr", "ptrc"):
+                        if key not in self.alen:
+                            raise Unsupported("pointer member %s has no declared length in the specialisation of %s" % (key, self.name))
+                        arr = coq_ident("%s_%s" % (name, path))
+                        self.alen[arr] = self.alen[key]
+                        self.array_params.append(arr)
+                        if kind == "ptrc":
+                            self.const_arrays.add(arr)
+                        for i_ in range(self.alen[arr]):
+                            v = self.fresh("%s_%d" % (arr, i_))
+                            binders.append(v)
+                            env[("arr", arr, i_)] = v
+                        env[("mem", name, path)] = Ptr(arr, 0)
+            elif rec and re.match(r"^(const\s+\w+|\w+\s+const)\s*\*", q.replace("struct ", "")):
                 # pointer to const: the members are inputs only
                 paths = self.real_paths(rec)
                 self.param_kinds.append(("cptr", name, paths))
@@ -1039,7 +1073,7 @@ def translate_file(path, include, cfg, names, extra=(), sigs=None, externs=None,
             fn.alen = alen
             fn._real_size = real_size
             if spec or alen:
-                fn.name = nm + "".join("_%s%s" % (k_, str(v_).replace("-", "m")) for k_, v_ in spec.items())
+                fn.name = nm + "".join("_%s%s" % (coq_ident(k_), str(v_).replace("-", "m")) for k_, v_ in spec.items())
             text, sig = fn.translate()
             sigs[full] = sig
             out.append("(* %s : inputs %s%s ; outputs: %s%s%s *)\n%s\n" % (
